@@ -42,6 +42,11 @@ type c02Scn struct {
 	// Near selects a (caller secret, BMC's different secret) pair that is a near
 	// miss: see c02Near
 	Near int `json:"near,omitempty"`
+	// BufReuse (with WrongPw): the caller keeps its password in one buffer; it
+	// first holds the password the BMC knows and is used for a session to
+	// another BMC, then it is overwritten in place with the caller's (different)
+	// password for the handshake under test
+	BufReuse bool `json:"buf_reuse,omitempty"`
 	Username string    `json:"username"`
 }
 
@@ -191,7 +196,15 @@ func hsMutations(reqPT byte, suite ref.Suite, reduced bool) []hsMut {
 	}
 	// datagram-level damage: the library may retry these (then only a session
 	// with the right keys is acceptable)
-	for _, cut := range []int{0, 3, 4, 10, 15, 16, 20} {
+	cuts := []int{0, 3, 4, 10, 15, 16, 20}
+	if !reduced {
+		// every length: a wrapper whose length field says more than arrived
+		cuts = nil
+		for c := 0; c < 16+full; c++ {
+			cuts = append(cuts, c)
+		}
+	}
+	for _, cut := range cuts {
 		cut := cut
 		ms = append(ms, hsMut{name: fmt.Sprintf("%s-datagram-cut-%d", pfx, cut), class: "free", datagram: func(d []byte) []byte {
 			if cut > len(d) {
@@ -296,6 +309,20 @@ func c02Exec(scn c02Scn, ch *env.Chooser) *c02Obs {
 		if scn.WrongKG {
 			cfg.KG = nbkg
 		}
+	}
+	if scn.BufReuse && len(pw) == len(cfg.Password) {
+		buf := append([]byte{}, cfg.Password...)
+		cfg0 := cfg
+		w0 := newWorld(cfg0, nil, nil)
+		if s0, err := w0.Conn.NewV2Session(w0.Ctx, &bmc.V2SessionOpts{
+			SessionOpts:  bmc.SessionOpts{Username: scn.Username, Password: buf, MaxPrivilegeLevel: ipmi.PrivilegeLevelAdministrator},
+			KG:           cfg.KG,
+			CipherSuites: []ipmi.CipherSuite{suiteOf(scn.Suite)},
+		}); err == nil {
+			s0.Close(w0.Ctx)
+		}
+		copy(buf, pw)
+		pw = buf
 	}
 	w := newWorld(cfg, ch, nil)
 	o := &c02Obs{}
@@ -456,6 +483,9 @@ func runC02(r *rep.R) {
 		} {
 			variants = append(variants, variant)
 		}
+		variants = append(variants,
+			c02Scn{Suite: s, Username: "admin", WrongPw: true, BufReuse: true},
+			c02Scn{Suite: s, Username: "admin", UseKG: true, WrongPw: true, BufReuse: true})
 		for n := 1; n <= c02Nears; n++ {
 			variants = append(variants,
 				c02Scn{Suite: s, Username: "admin", UseKG: true, Near: n},
@@ -489,7 +519,7 @@ func runC02(r *rep.R) {
 }
 
 func c02Explore(r *rep.R, scn c02Scn, bound int, idx *int64) {
-	tag := fmt.Sprintf("c02/%v/pw%v/kg%v/%v/red%v/%v/%v/u%d/near%d", scn.Suite, scn.WrongPw, scn.WrongKG, scn.UseKG, scn.Reduced, scn.SecondReduced, scn.LongSecret, len(scn.Username), scn.Near)
+	tag := fmt.Sprintf("c02/%v/pw%v/kg%v/%v/red%v/%v/%v/u%d/near%d/buf%v", scn.Suite, scn.WrongPw, scn.WrongKG, scn.UseKG, scn.Reduced, scn.SecondReduced, scn.LongSecret, len(scn.Username), scn.Near, scn.BufReuse)
 	e := &env.Explorer{R: r, Bound: bound, Scenario: tag, Idx: idx,
 		Run: func(ch *env.Chooser) any { return c02Exec(scn, ch) },
 	}
